@@ -186,6 +186,38 @@ def part_b(tier, seed, rng, wd, v, replay):
     return out
 
 
+def sweep_part(v, tier, wd, replay_obj=None):
+    """'... also when reports race with ... the REMOVAL of an instance': the removals the server performs itself (heartbeat time-out sweep, real
+    server on virtual time).  The histories, the harness and the trace judge are those of C18 (specs/limiter/Reclaim.tla, TraceReclaim.CapOK); what
+    belongs to C08 are the CAPACITY observations: the running total is the sum of the latest accepted counts of the instances that have not timed
+    out - a sweep that removes the count of the wrong instance shows as occupied or freed capacity"""
+    import subprocess
+    ev = os.path.join(wd, "c18ev")
+    cmd = [sys.executable, os.path.join(os.path.dirname(os.path.abspath(__file__)), "c18.py"), "--tier", tier]
+    if replay_obj is not None:
+        rp = os.path.join(wd, "sweep-replay.json")
+        json.dump(replay_obj, open(rp, "w"))
+        cmd += ["--replay", rp]
+    r = subprocess.run(cmd, env=dict(os.environ, VERIF_EVIDENCE=ev), capture_output=True, text=True, timeout=7200)
+    if r.returncode not in (0, 1):
+        raise Infra("sweep part (C18 machinery) failed: " + (r.stdout + r.stderr)[-1500:])
+    n = 0
+    for l in r.stdout.splitlines():
+        if l.startswith("VIOLATION property=C18 replay="):
+            d = json.load(open(l.split("replay=", 1)[1].strip()))
+            if (d.get("rejected_event") or {}).get("k") != "capacity":
+                continue       # (records of the global-allocate strategy are C18's own subject)
+            d["kind"] = "sweep"
+            d["what"] = "the server's own time-out sweep left the running total different from the sum of the latest accepted counts of the instances that have not timed out"
+            v.violation("sweep-%s" % d["scenario"]["id"], d)
+            n += 1
+    try:
+        e = json.load(open(os.path.join(ev, "C18.json")))
+        return e["coverage"].get("capacity_probes", 0) or e["coverage"].get("evaluations", 0)
+    except Exception:
+        return 0
+
+
 def main(tier, replay):
     t0 = time.time()
     seed = vlib.seed()
@@ -198,6 +230,9 @@ def main(tier, replay):
         states = trans = 0
         mc = {}
         scs = []
+        if replay and json.load(open(replay)).get("kind") == "sweep":
+            sweep_part(v, tier, wd, replay_obj=json.load(open(replay)))
+            return v.finish()
         if replay:
             scs = [json.load(open(replay))["scenario"]]
         else:
@@ -266,8 +301,9 @@ def main(tier, replay):
         tb = part_b(tier, seed, rng, wd, v, replay)
         states += tb["states"]
         trans += tb["transitions"]
+        sweep_obs = sweep_part(v, tier, wd) if not replay else 0
         rc = v.finish()
-        cov = {"token_bucket_part": tb, "states": states + tv.distinct, "transitions": trans + tv.generated,
+        cov = {"token_bucket_part": tb, "sweep_part_observations_real_server": sweep_obs, "states": states + tv.distinct, "transitions": trans + tv.generated,
                "traces_validated_against_impl": len(traces) - len(rejected),
                "samples": [traces[0], traces[len(traces) // 2]],
                "evaluations": len(traces), "distinct_nontrivial": len({vlib.canon(t["events"]) for t in traces}),
